@@ -750,7 +750,7 @@ impl<'a, 'w> Runner<'a, 'w> {
             // program": if the long-lived Program object no longer behaves like a pristine compile of the
             // same source, it was changed — state kept in the Program is shared by every context, so no
             // twin *context* can reveal it)
-            if !sh.use_ast && mix(&[key, 0x9906]) % 4 == 0 {
+            if !sh.use_ast && mix(&[key, 0x9906]) % 8 == 0 {
                 if let Ok(Ok(fresh_program)) = catch_unwind(AssertUnwindSafe(|| Program::compile(&w.programs[prog].src))) {
                     let mut got2: Option<Outcome> = None;
                     self.with_twin(false, target, &mut |tw| {
